@@ -5,6 +5,8 @@ package main
 // the evidence file and set the exit status.
 
 import (
+	"math"
+	"math/rand"
 	"sync"
 	"encoding/json"
 	"flag"
@@ -97,6 +99,7 @@ func (w *World) writeReplayTestFiles(workdir string) (overlayPath string) {
 			fmt.Fprintf(&sb, "\t%q: %s,\n", n, n)
 		}
 		sb.WriteString("}\n\nfunc TestVerifReplay(t *testing.T) {\n\tf := zzVerifTable[os.Getenv(\"VRT_HARNESS\")]\n\tif f == nil {\n\t\tt.Fatalf(\"unknown harness\")\n\t}\n")
+		sb.WriteString("\tif p := os.Getenv(\"VRT_SELFTEST\"); p != \"\" {\n\t\tvrt.SelfTest(p, f)\n\t\treturn\n\t}\n")
 		sb.WriteString("\tif os.Getenv(\"VRT_RACE\") != \"\" {\n\t\t// race replay: the same harness in 8 goroutines at once (run under go test -race)\n\t\tvrt.Reset()\n\t\tvrt.Concurrent = true\n\t\tdone := make(chan bool)\n\t\tfor g := 0; g < 8; g++ {\n\t\t\tgo func() {\n\t\t\t\tfor k := 0; k < 25; k++ {\n\t\t\t\t\tvrt.RunGuarded(f)\n\t\t\t\t}\n\t\t\t\tdone <- true\n\t\t\t}()\n\t\t}\n\t\tfor g := 0; g < 8; g++ {\n\t\t\t<-done\n\t\t}\n\t\tfor _, m := range vrt.Failures {\n\t\t\tt.Errorf(\"ASSERT FAILED: %s\", m)\n\t\t}\n\t\treturn\n\t}\n")
 		sb.WriteString("\tn := 1\n\tif os.Getenv(\"VRT_REPEAT\") != \"\" {\n\t\tn = 200\n\t}\n\tfor i := 0; i < n; i++ {\n\t\tvrt.Reset()\n")
 		sb.WriteString("\t\tpanicked, skipped, val := vrt.RunGuarded(f)\n\t\tif panicked {\n\t\t\tt.Fatalf(\"PANIC: %v\", val)\n\t\t}\n\t\tif skipped {\n\t\t\tt.Logf(\"ASSUMPTION-FAILED\")\n\t\t}\n")
@@ -394,11 +397,11 @@ func cmdCheck(args []string) {
 					id := kfID(o.Name)
 					var match *KnownFinding
 					for k := range known {
-						if known[k].Property == *prop && known[k].ID == id && known[k].Kind == "known" {
+						if known[k].ID == id && known[k].Kind == "known" {
 							match = &known[k]
 						}
 					}
-					if match != nil && len(match.Inputs) > 0 {
+					if match != nil && len(match.Inputs) > 0 && s.Enumerate {
 						// the finding is identified by its complete input list: enumerate and compare
 						if len(o.AllModels) == 0 || !o.AllComplete {
 							inconclusive++
@@ -513,7 +516,7 @@ func cmdCheck(args []string) {
 			"load_s":              round3(loadSecs),
 			"replayed_models":     replayed,
 			"inconclusive":        inconclusive,
-			"exhaustive":          false,
+			"exhaustive":          allComplete(reports),
 			"known_findings_seen": len(knownSeen),
 			"static_scan":         scan,
 			"explanation":         explanationFor(*prop),
@@ -579,6 +582,22 @@ func cmdSelftest() {
 	add("str-idx", And(IntBin(OpIntLt, IndexOf(s, Str(":"), IntC(0)), IntC(0)), Eq(s, Str("a:b"))), VUnsat)
 	add("fp", And(FPOp(OpFPLe, FP(0), f), FPOp(OpFPLe, f, FP(1)), FPOp(OpFPLt, FP(1), FPOp(OpFPMul, f, f))), VUnsat)
 	add("fp-round", Not(FPOp(OpFPEq, FPOp(OpFPRound, FP(2.5)), FP(3))), VUnsat)
+	// Pow chain vs math.Pow on the arguments that can occur (and random ones)
+	{
+		rng := rand.New(rand.NewSource(7))
+		for i := 0; i < 200000; i++ {
+			x := rng.Float64()*2 - 1
+			if i%4 == 0 {
+				x = float64(rng.Intn(2001)-1000) / 1000
+			}
+			for _, n := range []int64{13, 15} {
+				if goPowChainNative(x, n) != math.Pow(x, float64(n)) {
+					fmt.Printf("selftest: Pow chain differs from math.Pow at x=%v n=%d\n", x, n)
+					os.Exit(2)
+				}
+			}
+		}
+	}
 	b.ModelVars = []*Term{x}
 	runBatch(b, []string{"z3new", "cvc5"}, 60, 2)
 	bad := 0
@@ -605,4 +624,17 @@ func explanationFor(prop string) string {
 		return "Schedules are not enumerated. The check establishes non-interference with the solver: for every operation class the property lists (decode into an own object, queries on a shared decoded object, report construction) and every input within the stated bounds, the set of writes to locations that existed before the operation (the shared object, every names map, every package-level table) is empty (frame obligations discharged by z3/cvc5 over the symbolic heap), and a static scan of the SSA finds no goroutine creation, no sync primitive and no store to a package-level variable outside package initialisers. By Bernstein's conditions operations without shared writes are data-race free and commute, so every interleaving equals every sequential order. Internals of fmt, text/template, errs and x/text are trusted to be goroutine-safe."
 	}
 	return "bounded symbolic model checking of the real Go code: see rule / bounds / harnesses"
+}
+
+// allComplete: every harness of this run states (in its registry note) that it covers its finite domain completely.
+func allComplete(reps []HarnessReport) bool {
+	if len(reps) == 0 {
+		return false
+	}
+	for _, r := range reps {
+		if !strings.HasPrefix(r.Spec.Note, "complete") {
+			return false
+		}
+	}
+	return true
 }
